@@ -148,6 +148,41 @@ def step (d : DState) (opLine : String) (impl : String) : DState × StepOut :=
   match words opLine with
   | ["reset"] => ({}, { model := "ok" })
   | ["reset", "leveldb"] => ({ rs := some {} }, { model := "ok" })
+  | ["reset", "grpc"] =>
+    -- an in-process server, bootstrapped with store 1 and region 2 = the whole key space, peer 3 on store 1,
+    -- as LoadRegions hands it to the cache (no leader, no size)
+    let boot : Region := { id := 2, version := 1, confVer := 1, peers := [{ id := 3, store := 1 }] }
+    let c : Cluster := { ri := (setRegion {} boot).1 }
+    let S0 := match words impl with
+      | [_, s] => parseRegionList (s.drop 2).toString
+      | _ => []
+    ({ model := c, mon := { S := S0, H := C06.record [] S0 } }, { model := s!"ok S={renderRegionList (served c)}" })
+  | ["sopen", _] => (d, { model := "ok" })
+  | ["sclose", _] => (d, { model := "ok" })
+  | "ssend" :: sender :: spec =>
+    match parseHeartbeatX spec with
+    | none => (d, { model := "bad-op" })
+    | some hb =>
+      let r := regionFromHeartbeat hb
+      let (c', v) := heartbeat d.model r
+      let mout := s!"err={if v == Verdict.stale then sender else "-"} S={renderRegionList (served c')}"
+      match words impl with
+      | [e, s] =>
+        let errOn := if (e.drop 4).toString = "-" then [] else (e.drop 4).toString.splitOn ","
+        let S' := parseRegionList (s.drop 2).toString
+        let fails := if decide (C06.StreamOk d.mon.H d.mon.S (norm r) sender errOn S') then [] else
+          let e1 := explainServed d.mon (norm r) S'
+          let e2 := if decide (C06.MustReject d.mon.S (norm r)) && errOn != [sender] then
+              [s!"sig=C06.stale-heartbeat-not-answered-with-an-error-on-its-stream region={r.id} stream={sender} errors-on={errOn}"]
+            else if errOn != [] && errOn != [sender] then [s!"sig=C06.error-answer-on-another-stream stream={sender} errors-on={errOn}"]
+            else if errOn != [] && S' != d.mon.S then [s!"sig=C06.rejected-heartbeat-changed-state region={r.id}"]
+            else if errOn == [] && S' != d.mon.S && S' != C07.put d.mon.S (norm r) then
+              [s!"sig=C06.served-set-is-not-old-set-with-region-put region={r.id}"]
+            else []
+          if (e1 ++ e2).isEmpty then [s!"sig=C06.stream-step-not-ok region={r.id}"] else e1 ++ e2
+        ({ d with model := c', mon := { d.mon with H := C06.record d.mon.H S', S := S' } },
+          { model := mout, fails := fails })
+      | _ => ({ d with model := c' }, { model := mout, fails := [s!"sig=C06.unexpected-answer answer={impl}"] })
   | "hbf" :: spec =>
     -- the heartbeat's SaveRegion fails: the pinned code only logs that; cache and storage deletes happen as usual
     match parseHeartbeatX spec with
